@@ -100,6 +100,8 @@ class Interp:
         self.pos = 0
         self.solver = z3.Solver()
         self.solver.set('timeout', verifier.feas_timeout_ms)
+        if verifier.feas_no_mbqi:
+            self.solver.set('smt.mbqi', False)
         self.pc = []
         self.counter = 0
         self.mode = 'code'        # 'code' | 'spec' | 'quant'
@@ -138,6 +140,8 @@ class Interp:
         self.pc.append(t)
 
     def choose(self, n, labels=None):
+        if self.V.probe_depth is not None and self.pos >= self.V.probe_depth:
+            raise PathEnd()          # prefix enumeration for sharding: stop at the depth limit
         if self.pos < len(self.decisions):
             d = self.decisions[self.pos]
             self.arity[self.pos] = n
@@ -220,6 +224,9 @@ class Interp:
         props = list(props if props is not None else self.cur_props)
         key = (name, tuple(self.decisions[:self.pos]), self.oseq)
         self.oseq += 1
+        if self.V.probe_depth is not None:
+            self.assume(goal)
+            return
         if key not in self.V.done:
             self.V.done.add(key)
             sg = z3.simplify(goal)
@@ -237,6 +244,7 @@ class Interp:
                     except Exception as ex:   # noqa
                         res.inputs = {'<model rendering failed>': repr(ex)}
             res.kf = kf
+            res.dkey = repr(key)
             self.results.append(res)
         self.assume(goal)
 
